@@ -76,6 +76,65 @@ theorem same_sound (env : Env) (hv : EnvValid env) (a b : Expo) (h : a.same b = 
       simp only [ha, hb, beq_iff_eq] at h
       rw [nf_eval env hv a x ha, nf_eval env hv b y hb, h]
 
+/-! ### an accepted row: what an empty defect list says, leaf by leaf -/
+
+open Unyt.Ref in
+theorem leafDefects_units_sound (r : Row) (i : Nat) (l : List (String × Expo)) (leaf : Leaf)
+    (h : leafDefects r i (.units l) leaf = []) :
+    ∀ g ∈ r.groups, ∃ e, expectedExpo r l g = some e ∧ (expoOf leaf.expo g).same e = true := by
+  intro g hg
+  unfold leafDefects at h
+  simp only [List.append_eq_nil_iff] at h
+  obtain ⟨⟨_, hp⟩, _⟩ := h
+  rw [List.filterMap_eq_nil_iff] at hp
+  have hg' := hp g hg
+  cases he : expectedExpo r l g with
+  | none => simp [he] at hg'
+  | some e =>
+    refine ⟨e, rfl, ?_⟩
+    simp only [he] at hg'
+    by_cases hs : (expoOf leaf.expo g).same e = true
+    · exact hs
+    · simp [hs] at hg'
+
+open Unyt.Ref in
+theorem leafDefects_unitless_sound (r : Row) (i : Nat) (leaf : Leaf)
+    (h : leafDefects r i .unitless leaf = []) :
+    ∀ ge ∈ leaf.expo, ge.2.isZero = true := by
+  intro ge hge
+  unfold leafDefects at h
+  simp only at h
+  rw [List.filterMap_eq_nil_iff] at h
+  have := h ge hge
+  by_cases hz : ge.2.isZero = true
+  · exact hz
+  · simp [hz] at this
+
+open Unyt.Ref in
+theorem zipDefects_sound (r : Row) :
+    ∀ (ss : List LeafSpec) (ls : List Leaf) (i : Nat), zipDefects r i ss ls = [] →
+      ss.length = ls.length ∧ ∀ p ∈ ss.zip ls, ∃ j, leafDefects r j p.1 p.2 = [] := by
+  intro ss
+  induction ss with
+  | nil =>
+    intro ls i h
+    cases ls with
+    | nil => exact ⟨rfl, by intro p hp; simp at hp⟩
+    | cons l ls => simp [zipDefects] at h
+  | cons s ss ih =>
+    intro ls i h
+    cases ls with
+    | nil => simp [zipDefects] at h
+    | cons l ls =>
+      simp only [zipDefects, List.append_eq_nil_iff] at h
+      obtain ⟨hlen, hrest⟩ := ih ls (i + 1) h.2
+      refine ⟨by simp [hlen], ?_⟩
+      intro p hp
+      simp only [List.zip_cons_cons, List.mem_cons] at hp
+      rcases hp with rfl | hp
+      · exact ⟨i, h.1⟩
+      · exact hrest p hp
+
 /-! ### reductions: `size // result.size` counts the reduced elements -/
 
 /-- product of the dimensions whose position `i, i+1, …` is in `axs` -/
